@@ -292,11 +292,20 @@ def run_cases(cases, name, timeout_ms=10000, workers=None, mem_mb=None):
     # case once more, alone, with a six times longer limit; only a second time-out stands.
     again = [i for i, r in enumerate(results) if r is not None and "timeout" in r]
     if again and not name.endswith("_retry"):
-        redo = run_cases([cases[i] for i in again], name + "_retry", timeout_ms=timeout_ms * 6,
-                         workers=min(4, len(again)), mem_mb=mem_mb)
-        for i, r in zip(again, redo):
+        # retry at most a handful; if every one of them times out again, the rest stand as they are
+        first = again[:4]
+        redo = run_cases([cases[i] for i in first], name + "_retry", timeout_ms=timeout_ms * 6,
+                         workers=min(4, len(first)), mem_mb=mem_mb)
+        for i, r in zip(first, redo):
             r["retried"] = True
             results[i] = r
+        rest = again[4:]
+        if rest and not all("timeout" in r for r in redo):
+            redo = run_cases([cases[i] for i in rest], name + "_retry", timeout_ms=timeout_ms * 6,
+                             workers=min(4, len(rest)), mem_mb=mem_mb)
+            for i, r in zip(rest, redo):
+                r["retried"] = True
+                results[i] = r
     for i, r in enumerate(results):
         if r is None:
             raise ToolError(f"harness produced no result for case {i} of {name}")
